@@ -28,6 +28,19 @@ package memefish
 // @   trusted
 // @   modifies nothing
 
+// @ func strings.IndexByte
+// @   trusted
+// @   modifies nothing
+// @   ensures 0 - 1 <= result && result < len(s)
+// @   ensures result >= 0 ==> s[result] == c
+// @   ensures forall k: 0 <= k && k < ite(result < 0, len(s), result) ==> s[k] != c
+
+// @ func unicode/utf8.RuneCountInString
+// @   trusted
+// @   modifies nothing
+// @   ensures 0 <= result && result <= len(s)
+// @   ensures (forall k: 0 <= k && k < len(s) ==> s[k] < 128) ==> result == len(s)
+
 // ---------------------------------------------------------------------------------------------
 // Vocabulary
 
@@ -182,11 +195,21 @@ package memefish
 // @   ensures LexInv(l) && old(l.pos) < l.pos
 // @   ensures l.Token.Kind == "<int>" || l.Token.Kind == "<float>" || l.Token.Kind == "<bad>"
 // @   ensures !noPanic ==> l.Token.Kind != "<bad>"
+// @   ensures[C14] glued: l.pos < len(l.Buffer) && isIdentPart(l.Buffer[l.pos]) ==> l.Token.Kind == "<bad>"
+// @   ensures[C14] kind: l.Token.Kind == "<int>" ==> int && (l.Token.Base == 10 || l.Token.Base == 16) && l.Token.Base == base
+// @   ensures[C14] kindf: l.Token.Kind == "<float>" ==> !int && base == 10
+// @   ensures[C14] hexprefix: (base == 16) <==> (old(l.pos) + 1 < len(l.Buffer) && l.Buffer[old(l.pos)] == '0' && (l.Buffer[old(l.pos) + 1] == 'x' || l.Buffer[old(l.pos) + 1] == 'X'))
+// @   ensures[C14] munch: l.pos < len(l.Buffer) ==> !(base == 10 && isDigit(l.Buffer[l.pos])) && !(base == 16 && isHexDigit(l.Buffer[l.pos])) && !(base == 10 && int && !exp && l.Buffer[l.pos] == '.')
 // @   panics when !noPanic
 // @   modifies l.pos, l.Token.Kind, l.Token.Base, l.File.lines
 // @   loop 0 invariant LexInv(l) && l.pos == old(l.pos) && 0 <= i && l.pos + i <= len(l.Buffer) && (base == 10 || base == 16) && l.Token.Kind == old(l.Token.Kind)
 // @   loop 0 invariant i == 0 ==> base == 10 && int && !exp
-// @   loop 0 invariant base == 16 ==> i >= 2
+// @   loop 0 invariant (base == 16 ==> i >= 2) && (!int ==> base == 10) && (exp ==> !int)
+// Number automaton (GoogleSQL integer and floating point literals): one transition per iteration.
+// @   loop 0 step[C14] digit: (prev(base) == 10 && isDigit(l.Buffer[l.pos + prev(i)])) || (prev(base) == 16 && isHexDigit(l.Buffer[l.pos + prev(i)])) ==> i == prev(i) + 1 && int == prev(int) && exp == prev(exp) && base == prev(base)
+// @   loop 0 step[C14] point: prev(base) == 10 && l.Buffer[l.pos + prev(i)] == '.' ==> !prev(exp) && prev(int) && i == prev(i) + 1 && !int && !exp && base == 10
+// @   loop 0 step[C14] expo: prev(base) == 10 && (l.Buffer[l.pos + prev(i)] == 'e' || l.Buffer[l.pos + prev(i)] == 'E') ==> !prev(exp) && exp && !int && base == 10 && ((i == prev(i) + 1 && isDigit(l.Buffer[l.pos + i])) || (i == prev(i) + 2 && (l.Buffer[l.pos + prev(i) + 1] == '+' || l.Buffer[l.pos + prev(i) + 1] == '-') && isDigit(l.Buffer[l.pos + i])))
+// @   loop 0 step[C14] only: (prev(base) == 10 && (isDigit(l.Buffer[l.pos + prev(i)]) || l.Buffer[l.pos + prev(i)] == '.' || l.Buffer[l.pos + prev(i)] == 'e' || l.Buffer[l.pos + prev(i)] == 'E')) || (prev(base) == 16 && isHexDigit(l.Buffer[l.pos + prev(i)]))
 // @   loop 0 decreases len(l.Buffer) - l.pos - i
 
 // @ func strconv.ParseUint
@@ -195,12 +218,25 @@ package memefish
 // @   ensures result1 == nil ==> len(s) >= 1 && 0 <= result0
 // @   ensures result1 == nil && bitSize == 8 ==> result0 <= 255
 // @   ensures result1 == nil && bitSize == 32 ==> result0 <= 4294967295
+// @   ensures result1 == nil && base == 16 && len(s) == 2 ==> isHexDigit(s[0]) && isHexDigit(s[1]) && result0 == 16 * hexVal(s[0]) + hexVal(s[1])
+// @   ensures result1 == nil && base == 8 && len(s) == 3 ==> isOctalDigit(s[0]) && isOctalDigit(s[1]) && isOctalDigit(s[2]) && result0 == 64 * (s[0] - '0') + 8 * (s[1] - '0') + (s[2] - '0')
+// @   ensures base == 16 && len(s) == 2 && isHexDigit(s[0]) && isHexDigit(s[1]) ==> result1 == nil
+// @   ensures base == 8 && bitSize == 8 && len(s) == 3 && '0' <= s[0] && s[0] <= '3' && isOctalDigit(s[1]) && isOctalDigit(s[2]) ==> result1 == nil
 
 // @ func unicode/utf8.EncodeRune
 // @   trusted
 // @   requires len(p) >= 4
 // @   ensures 1 <= result && result <= 4
 // @   modifies nothing
+
+// ---- Escape sequences (GoogleSQL lexical structure, "String and bytes literals", escape table)
+// @ spec hexVal(c) = ite('0' <= c && c <= '9', c - '0', ite('a' <= c && c <= 'f', c - 'a' + 10, c - 'A' + 10))
+// decoded byte of a one-character escape \a \b \f \n \r \t \v \\ \? \" \' \`
+// @ spec simpleEsc(c) = c == 'a' || c == 'b' || c == 'f' || c == 'n' || c == 'r' || c == 't' || c == 'v' || c == 92 || c == '?' || c == '"' || c == 39 || c == 96
+// @ spec simpleEscVal(c) = ite(c == 'a', 7, ite(c == 'b', 8, ite(c == 'f', 12, ite(c == 'n', 10, ite(c == 'r', 13, ite(c == 't', 9, ite(c == 'v', 11, c)))))))
+// hasN(buf, p, n): n more bytes are available at p
+// @ spec hasN(buf, p, n) = p + n <= len(buf)
+// @ spec hexRun(buf, p, n) = hasN(buf, p, n) && (forall k: 0 <= k && k < n ==> isHexDigit(buf[p + k]))
 
 // consumeQuotedContent is entered with l.pos at the opening delimiter q (1 or 3 quote bytes).
 // On success the literal is closed by q and l.pos is just past the closing delimiter.
@@ -214,9 +250,21 @@ package memefish
 // @   modifies l.pos, l.File.lines
 // @   loop 0 invariant LexInv(l) && l.pos == old(l.pos) && len(q) <= i && l.pos + i <= len(l.Buffer) && (hasError ==> noPanic) && l.File.lines == old(l.File.lines)
 // @   loop 0 decreases len(l.Buffer) - l.pos - i
+// One scan step (C14 escape table; also what makes "a ';' or quote inside a literal never ends it" true, C12):
+// @   loop 0 step[C14,C12] plain: !hasError && l.Buffer[l.pos + prev(i)] != 92 ==> i == prev(i) + 1 && len(content) == len(prev(content)) + 1 && content[len(prev(content))] == l.Buffer[l.pos + prev(i)]
+// @   loop 0 step[C14,C12] rawesc: !hasError && l.Buffer[l.pos + prev(i)] == 92 && raw ==> i == prev(i) + 2 && len(content) == len(prev(content)) + 2 && content[len(prev(content))] == 92 && content[len(prev(content)) + 1] == l.Buffer[l.pos + prev(i) + 1]
+// @   loop 0 step[C14,C12] simple: !hasError && l.Buffer[l.pos + prev(i)] == 92 && !raw && simpleEsc(l.Buffer[l.pos + prev(i) + 1]) ==> i == prev(i) + 2 && len(content) == len(prev(content)) + 1 && content[len(prev(content))] == simpleEscVal(l.Buffer[l.pos + prev(i) + 1])
+// @   loop 0 step[C14,C12] hex: !hasError && l.Buffer[l.pos + prev(i)] == 92 && !raw && (l.Buffer[l.pos + prev(i) + 1] == 'x' || l.Buffer[l.pos + prev(i) + 1] == 'X') ==> i == prev(i) + 4 && isHexDigit(l.Buffer[l.pos + prev(i) + 2]) && isHexDigit(l.Buffer[l.pos + prev(i) + 3]) && len(content) == len(prev(content)) + 1 && content[len(prev(content))] == 16 * hexVal(l.Buffer[l.pos + prev(i) + 2]) + hexVal(l.Buffer[l.pos + prev(i) + 3])
+// @   loop 0 step[C14,C12] octal: !hasError && l.Buffer[l.pos + prev(i)] == 92 && !raw && '0' <= l.Buffer[l.pos + prev(i) + 1] && l.Buffer[l.pos + prev(i) + 1] <= '3' ==> i == prev(i) + 4 && isOctalDigit(l.Buffer[l.pos + prev(i) + 2]) && isOctalDigit(l.Buffer[l.pos + prev(i) + 3]) && len(content) == len(prev(content)) + 1 && content[len(prev(content))] == 64 * (l.Buffer[l.pos + prev(i) + 1] - '0') + 8 * (l.Buffer[l.pos + prev(i) + 2] - '0') + (l.Buffer[l.pos + prev(i) + 3] - '0')
+// @   loop 0 step[C14,C12] uni4: !hasError && l.Buffer[l.pos + prev(i)] == 92 && !raw && l.Buffer[l.pos + prev(i) + 1] == 'u' ==> unicode && i == prev(i) + 6 && hexRun(l.Buffer, l.pos + prev(i) + 2, 4) && len(content) >= len(prev(content)) + 1 && len(content) <= len(prev(content)) + 4
+// @   loop 0 step[C14,C12] uni8: !hasError && l.Buffer[l.pos + prev(i)] == 92 && !raw && l.Buffer[l.pos + prev(i) + 1] == 'U' ==> unicode && i == prev(i) + 10 && hexRun(l.Buffer, l.pos + prev(i) + 2, 8) && len(content) >= len(prev(content)) + 1 && len(content) <= len(prev(content)) + 4
+// @   loop 0 step[C14] other: !hasError && l.Buffer[l.pos + prev(i)] == 92 && !raw ==> simpleEsc(l.Buffer[l.pos + prev(i) + 1]) || l.Buffer[l.pos + prev(i) + 1] == 'x' || l.Buffer[l.pos + prev(i) + 1] == 'X' || l.Buffer[l.pos + prev(i) + 1] == 'u' || l.Buffer[l.pos + prev(i) + 1] == 'U' || ('0' <= l.Buffer[l.pos + prev(i) + 1] && l.Buffer[l.pos + prev(i) + 1] <= '3')
+// @   loop 0 step[C14] newline: !hasError && l.Buffer[l.pos + prev(i)] == 10 ==> len(q) == 3
+// @   loop 0 step[C14] keep: forall k: 0 <= k && k < len(prev(content)) ==> content[k] == prev(content)[k]
 // @   loop 1 invariant 0 <= j && j <= 2 && (hasError ==> noPanic) && l.pos + i + j <= len(l.Buffer)
 // @   loop 1 decreases 2 - j
 // @   loop 2 invariant 0 <= j && j <= size && (hasError ==> noPanic) && l.pos + i + j <= len(l.Buffer)
+// @   loop 2 invariant forall k: 0 <= k && k < j ==> isHexDigit(l.Buffer[l.pos + i + k])
 // @   loop 2 decreases size - j
 // @   loop 3 invariant 0 <= j && j <= 2 && (hasError ==> noPanic) && l.pos + i + j <= len(l.Buffer)
 // @   loop 3 decreases 2 - j
@@ -254,8 +302,24 @@ package memefish
 // A token whose kind is a single character is exactly that character of the input.
 // @ spec punct1(l, p) = len(l.Token.Kind) == 1 ==> l.pos == p + 1 && p < len(l.Buffer) && l.Buffer[p] == l.Token.Kind[0]
 
+// ---- Token table (GoogleSQL lexical structure): punctuation and operators by maximal munch,
+// literal prefixes, parameters, identifiers and keywords. b0/b1/b2 are the bytes at the token start.
+// @ spec nextIs(buf, p, c) = p + 1 < len(buf) && buf[p + 1] == c
+// @ spec tokIs(l, p, k, n) = l.Token.Kind == k && l.pos == p + n
+// @ spec single1(c) = c == '(' || c == ')' || c == '{' || c == '}' || c == ';' || c == ',' || c == '[' || c == ']' || c == '~' || c == '*' || c == '/' || c == '&' || c == '^' || c == '%' || c == ':' || c == '?' || c == 92 || c == '$'
+// @ spec isQ(c) = c == '"' || c == 39
+// @ spec isB(c) = c == 'b' || c == 'B'
+// @ spec isR(c) = c == 'r' || c == 'R'
+// string literal: quote, or r/R + quote;  bytes literal: b + quote, br + quote, rb + quote (any case)
+// @ spec strLitAt(buf, p) = p < len(buf) && (isQ(buf[p]) || (isR(buf[p]) && p + 1 < len(buf) && isQ(buf[p + 1])))
+// @ spec bytesLitAt(buf, p) = p + 1 < len(buf) && ((isB(buf[p]) && isQ(buf[p + 1])) || (p + 2 < len(buf) && isQ(buf[p + 2]) && ((isB(buf[p]) && isR(buf[p + 1])) || (isR(buf[p]) && isB(buf[p + 1])))))
+// @ spec identRun(buf, a, b) = a <= b && b <= len(buf) && (forall k: a <= k && k < b ==> isIdentPart(buf[k])) && (b == len(buf) || !isIdentPart(buf[b]))
+// @ spec dotCtx(k) = k == "<ident>" || k == "<param>" || k == ")" || k == "]"
+
 // @ func memefish.(*Lexer).consumeToken
 // @   props C03 C13
+// @   let p = l.pos
+// @   let b0 = l.Buffer[l.pos]
 // @   requires LexInv(l)
 // @   ensures LexInv(l) && old(l.pos) <= l.pos
 // @   ensures (l.Token.Kind == "<eof>") == (old(l.pos) >= len(l.Buffer))
@@ -263,18 +327,38 @@ package memefish
 // @   ensures l.Token.Kind != "<eof>" ==> l.pos > old(l.pos)
 // @   ensures !noPanic ==> l.Token.Kind != "<bad>"
 // @   ensures[C12,C14] punct1: punct1(l, old(l.pos))
+// @   ensures[C14] single: p < len(l.Buffer) && single1(b0) ==> len(l.Token.Kind) == 1 && l.Token.Kind[0] == b0 && l.pos == p + 1
+// @   ensures[C14] lt: p < len(l.Buffer) && b0 == '<' ==> ite(nextIs(l.Buffer, p, '<'), tokIs(l, p, "<<", 2), ite(nextIs(l.Buffer, p, '='), tokIs(l, p, "<=", 2), ite(nextIs(l.Buffer, p, '>'), tokIs(l, p, "<>", 2), tokIs(l, p, "<", 1))))
+// @   ensures[C14] gt: p < len(l.Buffer) && b0 == '>' ==> ite(nextIs(l.Buffer, p, '>'), tokIs(l, p, ">>", 2), ite(nextIs(l.Buffer, p, '='), tokIs(l, p, ">=", 2), tokIs(l, p, ">", 1)))
+// @   ensures[C14] plus: p < len(l.Buffer) && b0 == '+' ==> ite(nextIs(l.Buffer, p, '='), tokIs(l, p, "+=", 2), tokIs(l, p, "+", 1))
+// @   ensures[C14] minus: p < len(l.Buffer) && b0 == '-' ==> ite(nextIs(l.Buffer, p, '='), tokIs(l, p, "-=", 2), ite(nextIs(l.Buffer, p, '>'), tokIs(l, p, "->", 2), tokIs(l, p, "-", 1)))
+// @   ensures[C14] eq: p < len(l.Buffer) && b0 == '=' ==> ite(nextIs(l.Buffer, p, '>'), tokIs(l, p, "=>", 2), tokIs(l, p, "=", 1))
+// @   ensures[C14] pipe: p < len(l.Buffer) && b0 == '|' ==> ite(nextIs(l.Buffer, p, '>'), tokIs(l, p, "|>", 2), ite(nextIs(l.Buffer, p, '|'), tokIs(l, p, "||", 2), tokIs(l, p, "|", 1)))
+// @   ensures[C14] bang: p < len(l.Buffer) && b0 == '!' ==> ite(nextIs(l.Buffer, p, '='), tokIs(l, p, "!=", 2), tokIs(l, p, "!", 1))
+// @   ensures[C14] at: p < len(l.Buffer) && b0 == '@' ==> ite(nextIs(l.Buffer, p, '@'), tokIs(l, p, "@@", 2), ite(p + 1 < len(l.Buffer) && isIdentStart(l.Buffer[p + 1]), l.Token.Kind == "<param>" && identRun(l.Buffer, p + 1, l.pos) && isSub(l.Token.AsString, l.Buffer, p + 1, l.pos), tokIs(l, p, "@", 1)))
+// @   ensures[C14] dot: p < len(l.Buffer) && b0 == '.' ==> ite(!dotCtx(l.lastTokenKind) && p + 1 < len(l.Buffer) && isDigit(l.Buffer[p + 1]), l.Token.Kind == "<int>" || l.Token.Kind == "<float>" || l.Token.Kind == "<bad>", tokIs(l, p, ".", 1) && l.dotIdent == dotCtx(l.lastTokenKind))
+// @   ensures[C14] quoted: p < len(l.Buffer) && b0 == 96 ==> l.Token.Kind == "<ident>" || l.Token.Kind == "<bad>"
+// @   ensures[C14] digit: p < len(l.Buffer) && isDigit(b0) ==> l.Token.Kind == "<int>" || l.Token.Kind == "<float>" || l.Token.Kind == "<bad>"
+// @   ensures[C14] strlit: strLitAt(l.Buffer, p) <==> (l.Token.Kind == "<string>" || (l.Token.Kind == "<bad>" && (isQ(b0) || isR(b0)) && strLitAt(l.Buffer, p)))
+// @   ensures[C14] byteslit: bytesLitAt(l.Buffer, p) <==> (l.Token.Kind == "<bytes>" || (l.Token.Kind == "<bad>" && (isB(b0) || isR(b0)) && bytesLitAt(l.Buffer, p)))
+// @   ensures[C14] word: p < len(l.Buffer) && isIdentStart(b0) && !strLitAt(l.Buffer, p) && !bytesLitAt(l.Buffer, p) ==> identRun(l.Buffer, p, l.pos) && ((l.Token.Kind == "<ident>" && isSub(l.Token.AsString, l.Buffer, p, l.pos)) || (len(l.Token.Kind) == l.pos - p && (forall k: 0 <= k && k < l.pos - p ==> l.Token.Kind[k] == upperOf(l.Buffer[p + k])) && isKeywordStr(l.Token.Kind)))
+// @   ensures[C14] illegal: p < len(l.Buffer) && !single1(b0) && b0 != '<' && b0 != '>' && b0 != '+' && b0 != '-' && b0 != '=' && b0 != '|' && b0 != '!' && b0 != '@' && b0 != '.' && b0 != 96 && !isDigit(b0) && !isQ(b0) && !isIdentStart(b0) ==> l.Token.Kind == "<bad>" && l.pos == p + 1
 // @   panics when !noPanic
 // @   modifies l.pos, l.Token.Kind, l.Token.AsString, l.Token.Base, l.dotIdent, l.File.lines
-// @   loop 0 invariant LexInv(l) && l.pos == old(l.pos) && 1 <= i && l.pos + i <= len(l.Buffer)
+// @   loop 0 invariant LexInv(l) && l.pos == old(l.pos) && 1 <= i && l.pos + i <= len(l.Buffer) && l.Token.Kind == old(l.Token.Kind) && l.dotIdent == old(l.dotIdent)
+// @   loop 0 invariant[C14] forall k: l.pos + 1 <= k && k < l.pos + i ==> isIdentPart(l.Buffer[k])
 // @   loop 0 decreases len(l.Buffer) - l.pos - i
-// @   loop 1 invariant LexInv(l) && l.pos == old(l.pos) && 0 <= i && i <= 3 && l.Token.Kind == old(l.Token.Kind)
+// @   loop 1 invariant LexInv(l) && l.pos == old(l.pos) && 0 <= i && i <= 3 && l.Token.Kind == old(l.Token.Kind) && l.dotIdent == old(l.dotIdent)
+// @   loop 1 invariant[C14] (i == 0 ==> !bytes && !raw) && (i == 1 ==> (bytes <==> isB(l.Buffer[l.pos])) && (raw <==> isR(l.Buffer[l.pos])) && (bytes || raw)) && (i == 2 ==> bytes && raw && l.pos + 1 < len(l.Buffer) && ((isB(l.Buffer[l.pos]) && isR(l.Buffer[l.pos + 1])) || (isR(l.Buffer[l.pos]) && isB(l.Buffer[l.pos + 1])))) && i <= 2
 // @   loop 1 decreases 3 - i
-// @   loop 2 invariant LexInv(l) && l.pos == old(l.pos) && 0 <= i && l.pos + i <= len(l.Buffer) && (i == 0 ==> l.pos < len(l.Buffer) && isIdentStart(l.Buffer[l.pos])) && l.Token.Kind == old(l.Token.Kind)
+// @   loop 2 invariant LexInv(l) && l.pos == old(l.pos) && 0 <= i && l.pos + i <= len(l.Buffer) && (i == 0 ==> l.pos < len(l.Buffer) && isIdentStart(l.Buffer[l.pos])) && l.Token.Kind == old(l.Token.Kind) && l.dotIdent == old(l.dotIdent)
+// @   loop 2 invariant[C14] forall k: l.pos <= k && k < l.pos + i ==> isIdentPart(l.Buffer[k])
 // @   loop 2 decreases len(l.Buffer) - l.pos - i
 
 // @ func memefish.(*Lexer).consumeFieldToken
 // @   props C03 C13
 // @   requires LexInv(l)
+// @   ensures[C14] field: old(l.pos) < len(l.Buffer) && isIdentPart(l.Buffer[old(l.pos)]) ==> l.Token.Kind == "<ident>" && identRun(l.Buffer, old(l.pos), l.pos) && isSub(l.Token.AsString, l.Buffer, old(l.pos), l.pos)
 // @   ensures LexInv(l) && old(l.pos) <= l.pos
 // @   ensures (l.Token.Kind == "<eof>") == (old(l.pos) >= len(l.Buffer))
 // @   ensures l.Token.Kind == "<eof>" ==> l.pos == old(l.pos)
@@ -284,6 +368,7 @@ package memefish
 // @   panics when !noPanic
 // @   modifies l.pos, l.Token.Kind, l.Token.AsString, l.Token.Base, l.dotIdent, l.File.lines
 // @   loop 0 invariant LexInv(l) && l.pos == old(l.pos) && 0 <= i && l.pos + i <= len(l.Buffer) && (i == 0 ==> l.pos < len(l.Buffer) && isIdentPart(l.Buffer[l.pos]))
+// @   loop 0 invariant[C14] forall k: l.pos <= k && k < l.pos + i ==> isIdentPart(l.Buffer[k])
 // @   loop 0 decreases len(l.Buffer) - l.pos - i
 
 // ---------------------------------------------------------------------------------------------
